@@ -15,9 +15,13 @@ import (
 // arguments, order) with the model's (operation `lintwf`).
 
 var lwKinds = map[string]bool{"syntax-check": true, "matrix": true, "credentials": true, "job-needs": true, "env-var": true,
-	"id": true, "glob": true, "permissions": true, "if-cond": true, "shell-name": true, "deprecated-commands": true, "events": true}
+	"id": true, "glob": true, "permissions": true, "if-cond": true, "shell-name": true, "deprecated-commands": true, "events": true, "runner-label": true}
 
 var lwTemplates = map[string][]pwTemplate{
+	"runner-label": {
+		pwCompile("label-unknown", `label @q@ is unknown. available labels are @x@`),
+		pwCompile("label-conflict", `label @q@ conflicts with label @q@ defined at @p@. note: to run your job on each workers, use matrix`),
+	},
 	"shell-name": {pwCompile("shell-name", `shell name @q@ is invalid@o@. available names are @x@`)},
 	"deprecated-commands": {pwCompile("deprecated-command", `workflow command @q@ was deprecated. use @x@`)},
 	"events": {
